@@ -310,6 +310,24 @@ func genDetCase(c *core.Ctx, i int) detCase {
 			"components/c.tw": comp + ">",
 			"page.tw":         "p\n@component(\"~c\")\n" + strings.Join(slots, "") + "@end\n",
 		}
+		if r.Intn(3) == 0 {
+			// two to five different components (all files present), every use with a slot fault of its own
+			comps := []string{"zeta", "alpha", "Mid", "beta", "Alpha", "card", "z"}
+			r.Shuffle(len(comps), func(a, b int) { comps[a], comps[b] = comps[b], comps[a] })
+			page := "p\n"
+			for k, cn := range comps[:2+r.Intn(4)] {
+				files["components/"+cn+".tw"] = "<" + cn + ":@slot(\"declared\")@slot>"
+				switch (k + r.Intn(3)) % 3 {
+				case 0:
+					page += "@component(\"~" + cn + "\")@slot(\"undeclared" + fmt.Sprint(k) + "\")x@end@end\n"
+				case 1:
+					page += "@component(\"components/" + cn + "\")@slot(\"declared\")x@end@slot(\"declared\")y@end@end\n"
+				default:
+					page += "@component(\"~" + cn + "\")\n@slot a@end\n@slot b@end@end\n"
+				}
+			}
+			files["page.tw"] = page
+		}
 		return treeDetCase(files, "page")
 	case 6: // 2..4 faulty files at once (syntax errors and link errors)
 		files := map[string]string{"layouts/l.tw": "<@reserve(\"ok\")>", "components/c.tw": "<c>", "good.tw": "fine"}
